@@ -133,6 +133,12 @@ def buffer_ownership(ctx, R, DR):
         for m in list(k.methods.values()) + list(k.props_set.values()):
             if m.qual in allowed or m.name == "__init__" or not m.params:
                 continue
+            if not prog.is_known(m.qual):
+                # a helper the initialisers hand their stores to (and nobody else calls) is part of the initialisation
+                from ..helpers import known_owners
+                ow_ = known_owners(prog, m)
+                if ow_ and all(q.rsplit(".", 1)[-1] == "__init__" for q in ow_):
+                    continue
             r_ = m.params[0]
             for n in ast.walk(m.node):
                 tg = n.targets if isinstance(n, (ast.Assign, ast.Delete)) else [n.target] if isinstance(n, (ast.AugAssign, ast.AnnAssign)) else []
